@@ -67,6 +67,7 @@ Qed.
 
 Section Reader.
   Variables lc lp pb dict : Z.
+  Variable wsize : Z.        (* the reader's buffer size: the dictionary size rounded up to 16 *)
   Variable tail : list Z.
   Variable D0 : ptree.       (* the data as an array, and its length: fixed along the stream *)
   Variable T0 : Z.
@@ -74,8 +75,10 @@ Section Reader.
   Hypothesis Hlp : 0 <= lp.
   Hypothesis Hlclp : lc + lp <= 4.
   Hypothesis Hpb : 0 <= pb <= 4.
-  Hypothesis Hdict : 0 < dict <= 2147483648.
-  Hypothesis Hdict16 : dict mod 16 = 0.
+  Hypothesis Hdict : dict <= 2147483648.
+  Hypothesis Hdictw : dict <= wsize.
+  Hypothesis Hws : 0 < wsize.
+  Hypothesis Hws16 : wsize mod 16 = 0.
   Hypothesis Hdata : forall i, 0 <= aget 0 D0 i < 256.
 
   Definition hfix (h : ehist) : Prop := h_data h = D0 /\ h_total h = T0 /\ h_dict h = dict.
@@ -90,10 +93,10 @@ Section Reader.
 
   (* a flushed window holding the history *)
   Definition win_ok (w : lzwin) (hist : list Z) : Prop :=
-    Rel w hist /\ w_size w = dict /\ w_start w = w_pos w /\ w_pos w < w_size w.
+    Rel w hist /\ w_size w = wsize /\ w_start w = w_pos w /\ w_pos w < w_size w.
 
   Definition sync_win (r : rlevel) (h : ehist) (w : lzwin) : Prop :=
-    w_size w = dict /\ w_pending_len w = 0 /\
+    w_size w = wsize /\ w_pending_len w = 0 /\
     match r with
     | RDict => h_base h = h_pos h /\ 0 <= h_base h
     | _ => exists hist, win_ok w hist /\ hist_rel h hist
@@ -126,7 +129,7 @@ Section Reader.
       (0 < w_pending_len (m_win s) -> 0 <= w_pending_dist (m_win s) < w_full (m_win s)) /\
       E = done ++ rest /\ rc_sim E t0 [] done (m_rc s) (m_probs s) /\
       run_trace (aproduce (Z.to_nat u)
-                   (mkAstate c hist dict (w_pending_len (m_win s)) (w_pending_dist (m_win s)))) rest
+                   (mkAstate c hist wsize (w_pending_len (m_win s)) (w_pending_dist (m_win s)))) rest
         = Some (Ok (s_end, Ok tt), []) /\
       a_pend_len s_end = 0 /\ hist_rel h' (a_hist s_end) /\ hfix h' /\ coder_params (a_coder s_end) lc lp pb /\
       chunks_ok lc lp pb (RNone (a_coder s_end) (snd (renc_events renc_init t0 E))) h' bytes /\
@@ -350,7 +353,7 @@ Section Reader.
     end.
 
   Lemma at_boundary_reset r h s : at_boundary r h s ->
-    exists w1, lzwin_reset (m_win s) = Ok w1 /\ Rel w1 [] /\ w_size w1 = dict /\ w_start w1 = 0 /\ w_pos w1 = 0 /\
+    exists w1, lzwin_reset (m_win s) = Ok w1 /\ Rel w1 [] /\ w_size w1 = wsize /\ w_start w1 = 0 /\ w_pos w1 = 0 /\
                w_full w1 = 0 /\ w_pending_len w1 = 0.
   Proof.
     intros (_ & _ & _ & _ & _ & (Hsz & Hpl & _) & _).
@@ -449,12 +452,12 @@ Section Reader.
     intros Hne He Hcp Hus Hu1 Hck (Hd & Ht & Hdi) Hhr Hw Hpl Hcok Hsim Hpr Hco Hsz Hlz Hend Herr Hnp Hnd Hin.
     assert (Hdok : data_ok h) by (intros i; unfold hget; rewrite Hd; apply Hdata).
     pose proof Hcok as (_ & _ & Hreps & _).
-    destruct (aproduce_syms syms c0 h hist dict (w_pending_dist (m_win s1)) (Z.to_nat usize) E c' h' []
+    destruct (aproduce_syms syms c0 h hist wsize (w_pending_dist (m_win s1)) (Z.to_nat usize) E c' h' []
                 Hne Hhr ltac:(lia) ltac:(left; lia) Hdok Hreps He ltac:(lia))
       as (hist' & pd' & Hrun & Hhr' & Hreps' & Hb & Hdd & Htt & Hda).
     rewrite app_nil_r in Hrun.
     pose proof (chunks_ok_pos _ _ _ _ _ _ Hck) as Hpos'.
-    exists E, t0, [], E, c0, hist, (mkAstate c' hist' dict 0 pd'), h', bytes, usize.
+    exists E, t0, [], E, c0, hist, (mkAstate c' hist' wsize 0 pd'), h', bytes, usize.
     cbn [a_coder a_hist a_pend_len].
     split; [lia|]. split; [exact Hsz|]. split; [exact Hlz|]. split; [exact Hend|]. split; [exact Herr|].
     split; [exact Hnp|]. split; [exact Hnd|]. split; [exact Hco|]. split; [exact Hw|].
@@ -599,3 +602,73 @@ Section Reader.
   Qed.
 
 End Reader.
+
+(* ---------------------------------------------------------------------------------------------
+   The round trip: LZMA2 writer model, then LZMA2 reader model, any buffer sizes *)
+From LzVerif Require Import Codec.Lzma2FrameSyncProofs.
+
+Lemma aset_list_other l : forall t i j, 0 <= j < i -> aget 0 (aset_list t i l) j = aget 0 t j.
+Proof.
+  induction l as [|x r IH]; intros t i j Hj; cbn [aset_list]; [reflexivity|].
+  rewrite IH by lia. apply agso; lia.
+Qed.
+
+Lemma aget_list_aset_list l : forall t i, 0 <= i -> aget_list (aset_list t i l) i (length l) = l.
+Proof.
+  induction l as [|x r IH]; intros t i Hi; cbn [aset_list aget_list length]; [reflexivity|].
+  rewrite aset_list_other by lia. rewrite agss. f_equal. apply IH. lia.
+Qed.
+
+Lemma preset_kept_nil dict : preset_kept dict [] = [].
+Proof. unfold preset_kept, lastn. apply skipn_nil. Qed.
+
+Lemma data_from_new dict data : data_from (ehist_new dict [] data) = data.
+Proof.
+  unfold ehist_new. rewrite preset_kept_nil. cbn [app]. unfold data_from. cbn [h_data h_pos h_total].
+  change (zlen (@nil Z)) with 0. replace (Z.to_nat (0 + zlen data - 0)) with (length data) by (unfold zlen; lia).
+  unfold array_of_list. apply aget_list_aset_list. lia.
+Qed.
+
+(* LZMA2Reader::new: the window size the reader allocates *)
+Definition l2_window_size (dict : Z) : Z := (Z.min (Z.max dict 4096) 4294967280 + 15) / 16 * 16.
+
+Theorem lzma2_roundtrip : forall lc lp pb dict data evs stream tail sizes,
+  0 <= lc -> 0 <= lp -> lc + lp <= 4 -> 0 <= pb <= 4 -> dict <= 2147483648 ->
+  bytes_ok data = true ->
+  l2_no_end evs ->
+  lzma2_write lc lp pb dict None data evs = Ok stream ->
+  Forall (fun z => 0 < z) sizes ->
+  exists s0, lzma2_new (stream ++ tail) dict None = Ok s0 /\
+    forall fuel, (length data + 2 <= fuel)%nat ->
+    exists s_end, lzma2_read_all fuel s0 sizes sizes [] = Ok (data, 0, s_end) /\ m_in s_end = tail.
+Proof.
+  intros lc lp pb dict data evs stream tail sizes Hlc Hlp Hs Hpb Hdict Hbytes Hne Hw Hsizes.
+  pose proof (lzma2_frame_sync lc lp pb dict None data evs stream Hdict Hne Hw) as Hck.
+  cbn [start_level preset_list] in Hck.
+  unfold lzma2_new, lzma2_get_dict_size. cbn [obind]. fold (l2_window_size dict).
+  eexists. split; [reflexivity|]. intros fuel Hf.
+  set (h0 := ehist_new dict [] data) in *.
+  assert (Hws : 0 < l2_window_size dict /\ l2_window_size dict mod 16 = 0 /\ dict <= l2_window_size dict)
+    by (unfold l2_window_size; lia).
+  destruct Hws as (Hws1 & Hws2 & Hws3).
+  assert (Hdata : forall i, 0 <= aget 0 (h_data h0) i < 256).
+  { intros i. apply (data_ok_new dict [] data eq_refl Hbytes i). }
+  match goal with |- exists s_end, lzma2_read_all _ ?s0 _ _ _ = _ /\ _ =>
+    destruct (read_chunks lc lp pb dict (l2_window_size dict) tail (h_data h0) (h_total h0) Hlc Hlp Hs Hpb Hdict
+                Hws3 Hws1 Hws2 Hdata RDict h0 stream s0 sizes fuel Hck) as (s_end & Hr & Ht)
+  end.
+  - (* the initial reader state is at a chunk boundary needing a dictionary reset *)
+    unfold at_boundary. msimpl.
+    split; [reflexivity|]. split; [reflexivity|]. split; [reflexivity|]. split; [reflexivity|].
+    split; [split; [exact I|]; split; intros _; reflexivity|].
+    split; [|unfold hfix; repeat split; reflexivity].
+    unfold sync_win, lzwin_new. cbn [w_size w_pending_len].
+    split; [reflexivity|]. split; [reflexivity|].
+    unfold h0, ehist_new. rewrite preset_kept_nil. cbn [h_base h_pos]. split; [reflexivity | lia].
+  - reflexivity.
+  - exact Hsizes.
+  - unfold h0. rewrite (data_from_new dict data). exact Hf.
+  - exists s_end. unfold h0 in Hr. rewrite (data_from_new dict data) in Hr. split; assumption.
+Qed.
+
+Print Assumptions lzma2_roundtrip.
